@@ -19,12 +19,16 @@ import (
 //     iteration's validator index is fork-detected, and that edge always reaches the append (iff);
 //   - the appended value is this iteration's validator;
 //   - the list is not reordered or overwritten and is what the block carries.
+//
+// The list may be built in applyAtropos itself or in a module function whose result applyAtropos puts
+// into the block (c03ListBuilder): the clause is then decided on that function, with the Atropos being
+// the parameter that receives applyAtropos' Atropos, and the function must return the list it built.
 func c03Order(c *core.Ctx) {
 	c.Clause("C03.order", func() {
-		f := c.Fn("abft.Lachesis.applyAtropos")
+		aa := c.Fn("abft.Lachesis.applyAtropos")
+		view, atropos, listExpr := c03ListBuilder(aa)
+		f := view.G
 		info := f.Info()
-		res := c01Resolver(f)
-		atropos := f.Param(1)
 		// the merged clock of the block's Atropos
 		isVec := func(e ast.Expr) bool {
 			call, ok := resolveLocal(f, e).(*ast.CallExpr)
@@ -76,7 +80,7 @@ func c03Order(c *core.Ctx) {
 			const rule = "provenance + T4 (per iteration, both directions)"
 			const bad = "the cheater list is not built entry-by-entry from the merged vector in canonical order"
 			loop := enclosingLoop(f, a.Stmt.Pos())
-			it, isIt := core.IterationOf(f, loop, res)
+			it, isIt := c01IterationOf(f, loop)
 			if loop == nil || !isIt {
 				c.Fail(key, rule, a.Stmt.Pos(), bad+": the append is not inside a recognised iteration over the validators")
 				continue
@@ -179,35 +183,91 @@ func c03Order(c *core.Ctx) {
 		c.ExpectAtLeast("cheater appends", nApp, 1)
 		// no reorder: cheaters is only appended to and handed to the block
 		okUse := cheaters != nil
-		if cheaters != nil {
-			for _, cs := range f.Calls() {
+		untouched := func(g *core.FuncInfo, list *types.Var) bool {
+			ok := true
+			for _, cs := range g.Calls() {
 				if strings.HasPrefix(cs.Name, "sort.") || strings.HasPrefix(cs.Name, "slices.") {
 					for _, a := range cs.Call.Args {
-						if mentionsObj(f, a, cheaters) {
-							okUse = false
+						if mentionsObj(g, a, list) {
+							ok = false
 						}
 					}
 				}
 			}
-			for _, a := range assignments(f) {
-				if r, through := ast.Unparen(a.LHS).(*ast.IndexExpr); through && varOf(f, r.X) == cheaters {
-					okUse = false
+			for _, a := range assignments(g) {
+				if r, through := ast.Unparen(a.LHS).(*ast.IndexExpr); through && varOf(g, r.X) == list {
+					ok = false
+				}
+			}
+			return ok
+		}
+		if cheaters != nil {
+			okUse = untouched(f, cheaters)
+			if f != aa {
+				// the local of applyAtropos that receives the helper's list
+				if lv := varOf(aa, listExpr); lv != nil {
+					okUse = okUse && untouched(aa, lv)
 				}
 			}
 		}
 		c.Check(okUse, "cheater list is not reordered", "T6", f.Pos(), "the list is only appended to and handed to the block", "the cheater list is sorted or overwritten after it was built")
-		// the list is what the block carries
+		// the list is what the block carries: the block's Cheaters field is the appended list, or the
+		// result of the function that builds it and returns it on every path
 		okBlk := false
-		f.InspectOwn(func(n ast.Node) bool {
-			if cl, ok := n.(*ast.CompositeLit); ok {
-				if t := info.TypeOf(cl); t != nil && t.String() == core.ModPath+"/lachesis.Block" {
-					if v, has := c01StructFields(f, cl)["Cheaters"]; has && cheaters != nil && canonVar(f, varOf(f, v)) == cheaters {
-						okBlk = true
+		if cheaters != nil && listExpr != nil {
+			if f == aa {
+				okBlk = canonVar(aa, varOf(aa, listExpr)) == cheaters
+			} else {
+				n := 0
+				okBlk = true
+				for _, rp := range f.ReturnPoints() {
+					n++
+					if r := rp.Node().(*ast.ReturnStmt); len(r.Results) != 1 || canonVar(f, varOf(f, r.Results[0])) != cheaters {
+						okBlk = false
 					}
 				}
+				okBlk = okBlk && n > 0
 			}
-			return true
-		})
+		}
 		c.Check(okBlk, "the list built is the block's cheater list", "provenance", f.Pos(), "Block{Cheaters: the appended list}", "the block handed to the application does not carry the list built from the merged vector")
 	})
+}
+
+// c03ListBuilder locates the function in which the block's cheater list is built. It reads the value of
+// the Cheaters field of the lachesis.Block literal in applyAtropos: a list appended to in place gives
+// the direct view; the result of a static call of a module function gives that function as the view,
+// together with its parameter that receives applyAtropos' Atropos. Without a block literal the direct
+// view is returned (the clause then reports what is missing).
+func c03ListBuilder(aa *core.FuncInfo) (view c01Effect, atropos *types.Var, listExpr ast.Expr) {
+	view = c01Effect{Caller: aa, G: aa}
+	atropos = aa.Param(1)
+	aa.InspectOwn(func(n ast.Node) bool {
+		if cl, ok := n.(*ast.CompositeLit); ok && listExpr == nil {
+			if t := aa.Info().TypeOf(cl); t != nil && t.String() == core.ModPath+"/lachesis.Block" {
+				if v, has := c01StructFields(aa, cl)["Cheaters"]; has {
+					listExpr = v
+				}
+			}
+		}
+		return true
+	})
+	if listExpr == nil {
+		return
+	}
+	pv, ok := c01Producer(aa, listExpr)
+	if !ok {
+		return
+	}
+	view = pv
+	var at *types.Var
+	for _, fl := range pv.G.Type.Params.List {
+		for _, nm := range fl.Names {
+			pvar, _ := pv.G.Info().Defs[nm].(*types.Var)
+			if _, cv, bound := pv.bindVar(pvar); bound && cv != nil && cv == canonVar(aa, atropos) && atropos != nil {
+				at = pvar
+			}
+		}
+	}
+	atropos = at
+	return
 }
